@@ -87,11 +87,11 @@ def execute_step(env, step):
     if via == "property":
         if backend == "highs-wrapper" and highs_on_path:
             # rnapolis builds its own HiGHS_CMD(); the default must then be irrelevant
-            env.set_default(None if step.get("default", "none") == "none" else SimSolver(env))
+            env.set_default(None if step.get("default", "none") == "none" else env.decoy_solver())
         else:
             env.set_default(solver)
     else:
-        env.set_default(None if step.get("default", "none") == "none" else SimSolver(env))
+        env.set_default(None if step.get("default", "none") == "none" else env.decoy_solver())
     obs = {"raised": None, "db": None, "consumer": None, "discard": None}
     if op.startswith("mapping_"):
         mapping = corpus_mapping(step["corpus"])
